@@ -570,12 +570,124 @@ static void c11_check(cbor_item_t** srcp) {
   vb_free(&s0); vb_free(&s1); vb_free(&c0); vb_free(&a); vb_free(&b); vb_free(&d);
 }
 
+/* -------------------------------------- paired mutation (item and shadow) */
+/* Applies the same edits to a libcbor tree and to its shadow through the public mutators, so that a second
+ * serialization can be judged: anything cached from the first pass (sizes, counts, encodings) would now be stale. */
+static uint64_t g_pair_mutations;
+static void mutate_pair(cbor_item_t* it, rnode* sh, struct vh_rng* r, int depth) {
+  if (!it || !sh || depth > 12) return;
+  switch (sh->kind) {
+    case R_UINT: case R_NEGINT: {
+      static const uint64_t maxs[4] = {0xff, 0xffff, 0xffffffffull, ~0ull};
+      uint64_t v = (vh_below(r, 2) ? vh_rand(r) : gen_boundaries[vh_below(r, (uint64_t)gen_nboundaries)]) & maxs[sh->width];
+      switch (sh->width) { case 0: cbor_set_uint8(it, (uint8_t)v); break; case 1: cbor_set_uint16(it, (uint16_t)v); break; case 2: cbor_set_uint32(it, (uint32_t)v); break; default: cbor_set_uint64(it, v); }
+      if (vh_below(r, 4) == 0) { if (sh->kind == R_UINT) { cbor_mark_negint(it); sh->kind = R_NEGINT; } else { cbor_mark_uint(it); sh->kind = R_UINT; } }
+      sh->val = v;
+      g_pair_mutations++;
+      break;
+    }
+    case R_FLOAT:
+      if (sh->width == 1) { uint16_t h = (uint16_t)vh_rand(r); if (ref_is_nan16(h)) h = 0x3c00; uint32_t b = ref_half_to_single_bits(h); float f; memcpy(&f, &b, 4); cbor_set_float2(it, f); sh->val = h; }
+      else if (sh->width == 2) { uint32_t b = (uint32_t)vh_rand(r); float f; memcpy(&f, &b, 4); cbor_set_float4(it, f); sh->val = b; }
+      else { uint64_t b = vh_rand(r); double d; memcpy(&d, &b, 8); cbor_set_float8(it, d); sh->val = b; }
+      g_pair_mutations++;
+      break;
+    case R_SIMPLE: {
+      uint64_t v = 20 + vh_below(r, 4);
+      if (cbor_is_bool(it) && v <= 21 && vh_below(r, 2)) cbor_set_bool(it, v == 21); else cbor_set_ctrl(it, (uint8_t)v);
+      sh->val = v;
+      g_pair_mutations++;
+      break;
+    }
+    case R_BYTES: case R_TEXT:
+      if (!sh->indef) {
+        unsigned char* h = sh->kind == R_TEXT ? cbor_string_handle(it) : cbor_bytestring_handle(it);
+        if (h && sh->len) {
+          size_t at = vh_below(r, sh->len);
+          uint8_t nb = (uint8_t)vh_rand(r);
+          h[at] = nb; sh->bytes[at] = nb;
+          /* re-attach the (same) block so that derived data such as the code point count follows the edit */
+          size_t nl = vh_below(r, 3) ? sh->len : sh->len - 1;
+          if (sh->kind == R_TEXT) cbor_string_set_handle(it, h, nl); else cbor_bytestring_set_handle(it, h, nl);
+          sh->len = nl;
+          g_pair_mutations++;
+        }
+      } else {
+        for (size_t i = 0; i < sh->nkids; i++) if (vh_below(r, 2)) mutate_pair(sh->kind == R_TEXT ? cbor_string_chunks_handle(it)[i] : cbor_bytestring_chunks_handle(it)[i], sh->kids[i], r, depth + 1);
+        if (vh_below(r, 2)) {
+          cbor_item_t* c = sh->kind == R_TEXT ? cbor_build_string("+") : cbor_build_bytestring((const unsigned char*)"+", 1);
+          if (c) {
+            if (sh->kind == R_TEXT ? cbor_string_add_chunk(it, c) : cbor_bytestring_add_chunk(it, c)) { rnode* k = rn_new(sh->kind); k->len = 1; k->bytes = malloc(1); k->bytes[0] = '+'; rn_add(sh, k); g_pair_mutations++; }
+            cbor_decref(&c);
+          }
+        }
+      }
+      break;
+    case R_ARRAY: {
+      size_t n = cbor_array_size(it);
+      for (size_t i = 0; i < n && i < sh->nkids; i++) {
+        if (sh->kids[i]->share_of) continue; /* shared items are edited once, through their first occurrence */
+        bool shared_later = false;
+        for (size_t j = i + 1; j < sh->nkids; j++) if (sh->kids[j]->share_of == i + 1) shared_later = true;
+        if (shared_later) continue;
+        if (vh_below(r, 2)) mutate_pair(cbor_array_handle(it)[i], sh->kids[i], r, depth + 1);
+      }
+      if (n && vh_below(r, 3) == 0) { /* replace a member that is not involved in sharing */
+        size_t i = vh_below(r, n);
+        bool involved = sh->kids[i]->share_of != 0;
+        for (size_t j = 0; j < sh->nkids; j++) if (sh->kids[j]->share_of == i + 1) involved = true;
+        cbor_item_t* x = cbor_build_uint16(4242);
+        if (x && !involved) { if (cbor_array_replace(it, i, x)) { rn_free(sh->kids[i]); rnode* k = rn_new(R_UINT); k->width = 1; k->val = 4242; sh->kids[i] = k; g_pair_mutations++; } }
+        if (x) cbor_decref(&x);
+      }
+      if (vh_below(r, 2)) { /* push: succeeds on indefinite arrays and on definite ones with spare capacity */
+        cbor_item_t* x = cbor_build_negint8(9);
+        if (x) { if (cbor_array_push(it, x)) { rnode* k = rn_new(R_NEGINT); k->val = 9; rn_add(sh, k); if (sh->extra_cap) sh->extra_cap--; g_pair_mutations++; } cbor_decref(&x); }
+      }
+      break;
+    }
+    case R_MAP: {
+      size_t n = cbor_map_size(it);
+      bool any_share = false;
+      for (size_t j = 0; j < sh->nkids; j++) if (sh->kids[j]->share_of) any_share = true;
+      if (!any_share) for (size_t i = 0; i < n && 2 * i + 1 < sh->nkids; i++) {
+        if (vh_below(r, 2)) mutate_pair(cbor_map_handle(it)[i].key, sh->kids[2 * i], r, depth + 1);
+        if (vh_below(r, 2)) mutate_pair(cbor_map_handle(it)[i].value, sh->kids[2 * i + 1], r, depth + 1);
+      }
+      if (vh_below(r, 2)) {
+        cbor_item_t* k = cbor_build_uint8(1), * v = cbor_new_null();
+        if (k && v && cbor_map_add(it, (struct cbor_pair){.key = k, .value = v})) { rnode* a = rn_new(R_UINT); a->val = 1; rnode* b = rn_new(R_SIMPLE); b->val = 22; rn_add(sh, a); rn_add(sh, b); if (sh->extra_cap) sh->extra_cap--; g_pair_mutations++; }
+        if (k) cbor_decref(&k);
+        if (v) cbor_decref(&v);
+      }
+      break;
+    }
+    case R_TAG:
+      if (vh_below(r, 3) == 0) { /* re-tag: the old content's reference passes to the client */
+        cbor_item_t* old = it->metadata.tag_metadata.tagged_item;
+        cbor_item_t* x = cbor_build_float4(2.5f);
+        if (x && old) { cbor_tag_set_item(it, x); cbor_decref(&old); cbor_decref(&x); rn_free(sh->kids[0]); rnode* k = rn_new(R_FLOAT); k->width = 2; k->val = 0x40200000u; sh->kids[0] = k; g_pair_mutations++; }
+        else if (x) cbor_decref(&x);
+      } else mutate_pair(it->metadata.tag_metadata.tagged_item, sh->kids[0], r, depth + 1);
+      break;
+  }
+}
+
 /* --------------------------------------------------------- tree sources */
+static struct vh_rng* g_mut_rng; /* set by the api stage: mutate item and shadow together and judge a second serialization */
 static void with_tree(cbor_item_t* it, const rnode* shadow) {
   cbor_item_t* held = it;
-  if (P == 3) c03_check(it, shadow);
+  if (P == 3) {
+    c03_check(it, shadow);
+    if (g_mut_rng) {
+      /* serialized_size first, so that anything it might cache is in place before the edits */
+      (void)cbor_serialized_size(it);
+      mutate_pair(it, (rnode*)shadow, g_mut_rng, 0);
+      c03_check(it, shadow);
+    }
+  }
   else if (P == 7) c07_check(it);
-  else c11_check(&held);
+  else if (P == 11) c11_check(&held);
   if (held) cbor_decref(&held);
   if (ta_live_count()) { vh_violation("leak", "%zu block(s) still allocated after all references were dropped; events: %s", ta_live_count(), ta_ring_dump()); ta_forget_all(); }
 }
@@ -630,7 +742,9 @@ static void api_case(uint64_t u, uint64_t seed) {
     VH_COUNT("trees.built", 1);
     vh_nontrivial(vh_hash(desc, 17));
     if (vh_sampling()) { struct vh_buf pr = {0}; walk_print_item(it, &pr); vh_sample_text("built tree %s", (char*)pr.p); vb_free(&pr); }
+    g_mut_rng = (P == 3 && (u & 1)) ? &r : NULL;
     with_tree(it, t);
+    g_mut_rng = NULL;
   } else VH_COUNT("skipped.build_refused", 1);
   rn_free(t);
 }
@@ -683,6 +797,7 @@ static void stage_api(void) {
     if ((int)(u % (uint64_t)O.nshards) != O.shard) continue;
     api_case(u, O.seed);
   }
+  vh_count_dyn("paired_mutations_applied_before_second_serialization", g_pair_mutations);
   for (int i = 0; i < 8; i++) { char nm[48]; static const char* vn[] = {"ints_build", "ints_new_set", "handleless_strings", "set_handle", "build_string_z", "shared_subitems", "spare_capacity", "retagged"}; snprintf(nm, sizeof nm, "variants.%s", vn[i]); vh_count_dyn(nm, g_built_variants[i]); }
 }
 
